@@ -26,21 +26,21 @@ type replayDriver struct {
 }
 
 var replayDrivers = map[string]replayDriver{
-	"(*wsConn).cancelCtx":                {"frames_test.go.txt", ".", "TestZZReplayFrames"},
-	"(*wsConn).handleChanMessage":        {"frames_test.go.txt", ".", "TestZZReplayFrames"},
-	"(*wsConn).handleChanClose":          {"frames_test.go.txt", ".", "TestZZReplayFrames"},
-	"(*wsConn).handleResponse":           {"frames_test.go.txt", ".", "TestZZReplayFrames"},
-	"(*wsConn).handleFrame":              {"frames_test.go.txt", ".", "TestZZReplayFrames"},
-	"(*wsConn).frameExecutor":            {"frames_test.go.txt", ".", "TestZZReplayFrames"},
-	"(*wsConn).handleCall":               {"frames_test.go.txt", ".", "TestZZReplayFrames"},
-	"normalizeID":                        {"frames_test.go.txt", ".", "TestZZReplayFrames"},
-	"(*handler).handleReader":            {"reader_test.go.txt", ".", "TestZZReplayReader"},
-	"(*backoff).next":                    {"backoff_test.go.txt", ".", "TestZZReplayBackoff"},
-	"doCall":                             {"docall_test.go.txt", ".", "TestZZReplayDoCall"},
-	"auth.HasPerm":                       {"auth/hasperm_test.go.txt", "auth", "TestZZReplayHasPerm"},
-	"auth.WithPerm":                      {"auth/hasperm_test.go.txt", "auth", "TestZZReplayHasPerm"},
-	"(*httpio.waitReadCloser).Read":      {"httpio/wrc_test.go.txt", "httpio", "TestZZReplayWaitReadCloser"},
-	"(*httpio.waitReadCloser).Close":     {"httpio/wrc_test.go.txt", "httpio", "TestZZReplayWaitReadCloser"},
+	"(*wsConn).cancelCtx":            {"frames_test.go.txt", ".", "TestZZReplayFrames"},
+	"(*wsConn).handleChanMessage":    {"frames_test.go.txt", ".", "TestZZReplayFrames"},
+	"(*wsConn).handleChanClose":      {"frames_test.go.txt", ".", "TestZZReplayFrames"},
+	"(*wsConn).handleResponse":       {"frames_test.go.txt", ".", "TestZZReplayFrames"},
+	"(*wsConn).handleFrame":          {"frames_test.go.txt", ".", "TestZZReplayFrames"},
+	"(*wsConn).frameExecutor":        {"frames_test.go.txt", ".", "TestZZReplayFrames"},
+	"(*wsConn).handleCall":           {"frames_test.go.txt", ".", "TestZZReplayFrames"},
+	"normalizeID":                    {"frames_test.go.txt", ".", "TestZZReplayFrames"},
+	"(*handler).handleReader":        {"reader_test.go.txt", ".", "TestZZReplayReader"},
+	"(*backoff).next":                {"backoff_test.go.txt", ".", "TestZZReplayBackoff"},
+	"doCall":                         {"docall_test.go.txt", ".", "TestZZReplayDoCall"},
+	"auth.HasPerm":                   {"auth/hasperm_test.go.txt", "auth", "TestZZReplayHasPerm"},
+	"auth.WithPerm":                  {"auth/hasperm_test.go.txt", "auth", "TestZZReplayHasPerm"},
+	"(*httpio.waitReadCloser).Read":  {"httpio/wrc_test.go.txt", "httpio", "TestZZReplayWaitReadCloser"},
+	"(*httpio.waitReadCloser).Close": {"httpio/wrc_test.go.txt", "httpio", "TestZZReplayWaitReadCloser"},
 }
 
 type replayOutcome struct {
